@@ -53,6 +53,10 @@ def configs(tier, seed):
         for sp in (0.0, 0.5, 1.0):
             add(move="sweep", n=2, kernel=k, wiring="run", outlier_prior=0.0, N=2, threshold=0.5, alpha=1.0, subtree_prob=sp)
         add(move="sweep", n=2, kernel=k, wiring="run", outlier_prior=0.2, N=2, threshold=0.5, alpha=1.0, subtree_prob=0.5, grid=3)
+    # the data-point move on trees that came out of a grafting move (clone positions in the graph no longer follow creation order)
+    add(move="dp", n=3, outlier_prior=0.0, alpha=1.0, grid=3, regrafted_start=True)
+    add(move="dp", n=3, outlier_prior=0.2, alpha=1.7, grid=3, regrafted_start=True)
+    add(move="dp", n=4, outlier_prior=0.0, alpha=1.0, grid=3, regrafted_start=True)
     # repeated data-point / prune-regraft moves inside one sweep (--num-samples-data-point / --num-samples-prune-regraph above 1, and 0)
     add(move="sweep", n=2, kernel="bootstrap", wiring="run", outlier_prior=0.2, N=2, threshold=0.5, alpha=1.0, subtree_prob=0.0, grid=3, n_dp=2, n_prg=2)
     add(move="sweep", n=2, kernel="semi-adapted", wiring="run", outlier_prior=0.0, N=2, threshold=0.5, alpha=1.3, subtree_prob=0.0, n_dp=3, n_prg=1)
